@@ -42,6 +42,8 @@ for it in reversed(json.load(sys.stdin)):      # opposite order: a rendering mus
             db = builder.build_morphed(it['model'], it['route'].split(':')[1].split('+'))
         elif it['route'] == 'built_abstract':
             db = builder.build_abstract(it['model'])
+        elif it['route'] == 'built_shared_notes':
+            db = builder.build(it['model'], note_as_object='shared')
         else:
             db = builder.build(it['model'])
         out[str(it['tid'])] = hashlib.sha1(db.sql.encode('utf8')).hexdigest()
@@ -79,6 +81,8 @@ def _exec_chunk(items):
                 db = builder.build_morphed(m, it['route'].split(':')[1].split('+'))
             elif it['route'] == 'built_abstract':
                 db = builder.build_abstract(m)
+            elif it['route'] == 'built_shared_notes':
+                db = builder.build(m, note_as_object='shared')
             else:
                 db = builder.build(m)
             rec['s0'] = pj.project_db(db)
@@ -208,7 +212,7 @@ def standard_main(prop: str, clauses: List[str], technique: str, rule: str, nont
         ms = docs.gen_models(lo, lo + n - 1, False, True, rep)
         for seed, dm in ms:
             # morphed: built from another content, rendered, then edited in place into this one (pv/builder.py)
-            for route in ('parsed', 'built' if seed % 3 else 'built_abstract',
+            for route in ('parsed', ('built_abstract', 'built', 'built_shared_notes')[seed % 3],
                           'morphed:' + ('names', 'types', 'settings', 'refs', 'names+types+settings+refs')[seed % 5]):
                 tid += 1
                 items[tid] = {'tid': tid, 'route': route, 'doc': dm['doc'], 'model': dm['model'], 'fseed': None, 'pinned': {},
